@@ -29,11 +29,11 @@ theorem default_device :
 /-- C12: a build succeeds only if the three images fit the selected device exactly as the
     property says (bytes of flash ≤ 2·words, EEPROM bytes, RAM extent), and the sizes it reports
     are those of the device selected at the end of the passes. -/
-theorem build_fits (fs : Fs) (fuel : Nat) (st : PState) (r : BuildResult)
-    (h : buildFromParsed fs fuel st = .ok r) :
+theorem build_fits (fs : Fs) (st : PState) (r : BuildResult)
+    (h : buildFromParsed fs st = .ok r) :
     r.code.length ≤ 2 * r.flashSize ∧ r.eeprom.length ≤ r.eepromSize ∧ r.ramFilling ≤ r.ramSize := by
   unfold buildFromParsed at h
-  cases h0 : pass0 fs fuel st.asParseResult st.ctx with
+  cases h0 : pass0 fs st.asParseResult st.ctx with
   | ok p0 =>
     simp only [h0] at h
     cases h1 : pass1 (p0.segments.filter fun s => !s.items.isEmpty) p0.messages p0.ctx with
@@ -64,11 +64,11 @@ theorem build_fits (fs : Fs) (fuel : Nat) (st : PState) (r : BuildResult)
 
 /-- … and conversely: when the passes succeed, the build fails iff one of the three memories
     is exceeded by at least one unit (so "exactly full" builds and "one more" fails) -/
-theorem limits_exact (fs : Fs) (fuel : Nat) (st : PState) (p0 : PState) (p1 : Pass1Result) (p2 : Pass2Result)
-    (h0 : pass0 fs fuel st.asParseResult st.ctx = .ok p0)
+theorem limits_exact (fs : Fs) (st : PState) (p0 : PState) (p1 : Pass1Result) (p2 : Pass2Result)
+    (h0 : pass0 fs st.asParseResult st.ctx = .ok p0)
     (h1 : pass1 (p0.segments.filter fun s => !s.items.isEmpty) p0.messages p0.ctx = .ok p1)
     (h2 : pass2 p1 = .ok p2) :
-    (∃ r, buildFromParsed fs fuel st = .ok r ∧ r.code = p2.code ∧ r.eeprom = p2.eeprom ∧
+    (∃ r, buildFromParsed fs st = .ok r ∧ r.code = p2.code ∧ r.eeprom = p2.eeprom ∧
           r.flashSize = p2.ctx.device.flash ∧ r.eepromSize = p2.ctx.device.eeprom ∧
           r.ramSize = p2.ctx.device.ramSize ∧ r.ramFilling = p2.ramFilling) ↔
     (p2.code.length ≤ 2 * p2.ctx.device.flash ∧ p2.eeprom.length ≤ p2.ctx.device.eeprom ∧
@@ -116,21 +116,21 @@ theorem pass1_within (t : SegT) (limit : Nat) : ∀ (items : List (Nat × Item))
         | (simp [lineErr] at h; done))
 
 /-- selecting an unknown device is an error naming the line -/
-theorem unknown_device_error (fs : Fs) (cur : Str) (incs : List Str) (f : Nat) (st : PState) (name : Str) (ln : Nat)
+theorem unknown_device_error (inc : IncludeFn) (cur : Str) (incs : List Str) (st : PState) (name : Str) (ln : Nat)
     (h : alookup name Gen.devices = none) :
-    directiveParse fs cur incs (f + 1) st .device (.opList [.e (.ident name)]) ln = .error ⟨some ln, "unknown-device"⟩ := by
+    directiveParse inc cur incs st .device (.opList [.e (.ident name)]) ln = .error ⟨some ln, "unknown-device"⟩ := by
   simp [directiveParse, h, lineErr]
 
 /-- selecting a second device is an error naming the line -/
-theorem second_device_error (fs : Fs) (cur : Str) (incs : List Str) (f : Nat) (st : PState) (name : Str) (ln : Nat) (d : Device)
+theorem second_device_error (inc : IncludeFn) (cur : Str) (incs : List Str) (st : PState) (name : Str) (ln : Nat) (d : Device)
     (h : alookup name Gen.devices = some d) (hsel : st.ctx.device ≠ defaultDevice) :
-    directiveParse fs cur incs (f + 1) st .device (.opList [.e (.ident name)]) ln = .error ⟨some ln, "device-redefinition"⟩ := by
+    directiveParse inc cur incs st .device (.opList [.e (.ident name)]) ln = .error ⟨some ln, "device-redefinition"⟩ := by
   simp [directiveParse, h, hsel, lineErr]
 
 /-- the first selection takes effect -/
-theorem first_device_selected (fs : Fs) (cur : Str) (incs : List Str) (f : Nat) (st : PState) (name : Str) (ln : Nat) (d : Device)
+theorem first_device_selected (inc : IncludeFn) (cur : Str) (incs : List Str) (st : PState) (name : Str) (ln : Nat) (d : Device)
     (h : alookup name Gen.devices = some d) (hsel : st.ctx.device = defaultDevice) :
-    directiveParse fs cur incs (f + 1) st .device (.opList [.e (.ident name)]) ln =
+    directiveParse inc cur incs st .device (.opList [.e (.ident name)]) ln =
       .ok ({ st with ctx := { st.ctx with device := d } }, incs, .newLine) := by
   simp [directiveParse, h, hsel]
 
